@@ -16,5 +16,21 @@ for cfg in ('default', 'nodefault', 'rand'):
     path, _ = build.facts_path(cfg)
     for a in json.load(open(path))['adts']:
         adts.add(a['path'])
-json.dump({'fns': sorted(out.values(), key=lambda x: x['path']), 'adts': sorted(adts)}, open(os.path.join(os.path.dirname(os.path.dirname(os.path.abspath(__file__))), 'baseline_fns.json'), 'w'), indent=0)
+dcp = set()
+for cfg in ('default', 'nodefault', 'rand'):
+    path, _ = build.facts_path(cfg)
+    for f in json.load(open(path))['fns']:
+        for b in f['blocks']:
+            t = b['term']
+            if t['k'] == 'call' and t['func'].get('def') in ('std::ops::Fn::call', 'std::ops::FnMut::call_mut', 'std::ops::FnOnce::call_once') and '{closure' in (t['func'].get('res') or ''):
+                dcp.add(t['func']['res'].split('::{closure')[0])
+atp = set()
+for cfg in ('default', 'nodefault', 'rand'):
+    path, _ = build.facts_path(cfg)
+    for f in json.load(open(path))['fns']:
+        for b in f['blocks']:
+            t = b['term']
+            if t['k'] == 'call' and t['func'].get('def') in ('std::result::Result::<T, E>::and_then', 'std::option::Option::<T>::and_then'):
+                atp.add(f['path'].split('::{closure')[0])
+json.dump({'fns': sorted(out.values(), key=lambda x: x['path']), 'adts': sorted(adts), 'direct_closure_parents': sorted(dcp), 'and_then_parents': sorted(atp)}, open(os.path.join(os.path.dirname(os.path.dirname(os.path.abspath(__file__))), 'baseline_fns.json'), 'w'), indent=0)
 print(len(out), 'functions')
